@@ -176,14 +176,25 @@ def check_case(case, rec):
             prog = Program(libraries=LIBS)
             node_cls = prog.find_command_class("Node")
             ref = lambda c: prog.commands[name(c)] if build == "api_objects" and name(c) in prog.commands else name(c)
-            for i in case["order"]:
+            def arguments(i):
                 refs, kinds = adj[i], case["kinds"][i]
                 direct = [c for c, k in zip(refs, kinds) if k == "d"]
                 args = {key: ref(c) for key, c in zip(("A", "B", "C"), direct)}
                 ls = [c for c, k in zip(refs, kinds) if k != "d"] + direct[3:]
                 if ls:
                     args["L"] = [ref(c) for c in ls]
-                prog.add_command(node_cls, name(i), args)
+                return args
+
+            # (only with references by name: a reference handed over as an object stays with that object, by the caller's choice)
+            replaced = case["replace"] % n if case.get("replace") is not None and build == "api" else None
+            for i in case["order"]:
+                # a model edited the documented way: one command first added without its references, later deleted
+                # and added again under the same name with them
+                prog.add_command(node_cls, name(i), {} if i == replaced else arguments(i))
+            if replaced is not None:
+                del prog.commands[name(replaced)]
+                prog.add_command(node_cls, name(replaced), arguments(replaced))
+                rec.label("command_replaced")
             rec.label("build:" + build)
     except Exception as exc:
         return [Failure("load_raises:%s" % type(exc).__name__, "%r\n%s" % (exc, text))]
@@ -319,6 +330,8 @@ def small_graphs(ctx):
                     if (bits + sum(order[:1])) % 3 == 0 or not ctx.quick:
                         for build in ("api", "api_objects"):
                             yield {"n": n, "adj": adj, "kinds": kinds, "order": list(order), "lib": "testlib", "pick": bits + len(kinds[0]), "build": build}
+                            yield {"n": n, "adj": adj, "kinds": kinds, "order": list(order), "lib": "testlib", "pick": bits + len(kinds[0]), "build": build,
+                                   "replace": bits % n}
             # every reference mentioned twice by its command (once as written, once more in its list parameter)
             if bits % 2 == 0 or not ctx.quick:
                 for kinds in kind_assignments(adj, full=False)[:2]:
@@ -375,7 +388,8 @@ def larger_graphs(draw):
     lib = draw(st.sampled_from(["testlib", "testlib", "testlib", "builtin"]))
     return {"n": n, "adj": adj, "kinds": kinds, "order": order, "lib": lib, "fuzzy": draw(st.booleans()), "pick": draw(st.integers(0, 9)),
             "voff": draw(st.integers(0, 6)), "poff": draw(st.integers(0, 5)), "sat": draw(st.sampled_from(["mixed", "true", "false", "zero"])),
-            "printvars": draw(st.sampled_from([None, None, None, 0, 1, 5, 31, 10])), "build": draw(st.sampled_from(["source", "source", "api", "api_objects"]))}
+            "printvars": draw(st.sampled_from([None, None, None, 0, 1, 5, 31, 10])), "build": draw(st.sampled_from(["source", "source", "api", "api_objects"])),
+            "replace": draw(st.sampled_from([None, None, 0, 1, 2, 3, 4]))}
 
 
 PARTS = {"graph": check_case}
